@@ -321,6 +321,10 @@ ENTRIES = {
     "sl2_iso": (_matrix_pack, lambda p, v: build(p, SL2, (2, 2)), lambda o: H.sl2_iso(o).proj_data),
     "from_angle": (lambda p: p["k"] != "other", lambda p, v: build(p, v), lambda o: H.IdealPoint.from_angle(o).proj_data),
     "regular_polygon": (_scalar_pack, lambda p, v: build(p, v), lambda o: H.Polygon.regular_polygon(5, radius=o).proj_data),
+    "standard_loxodromic": (_scalar_pack, lambda p, v: build(p, abs(v)), lambda o: H.Isometry.standard_loxodromic(2, o).proj_data),
+    "point_along": (_scalar_pack, lambda p, v: build(p, v),
+                    lambda o: H.TangentVector.get_base_tangent(2).normalized().point_along(o).proj_data),
+    "regular_polygon_angle": (_scalar_pack, lambda p, v: build(p, v), lambda o: H.Polygon.regular_polygon(5, angle=o).proj_data),
     "coxeter_rep": (_matrix_pack, lambda p, v: build(p, COX_INF if (v is not None and int(abs(v)) % 2 == 0) else COX, (3, 3)),
                     lambda o: np.stack([coxeter.CoxeterGroup(matrix=o).geometric_representation()[g] for g in "abc"])),
     "array_like": (lambda p: True, lambda p, v: build(p, v), lambda o: utils.array_like(o)),
@@ -336,7 +340,7 @@ ENTRIES = {
     "point_affine": (_vector_pack, lambda p, v: build(p, _vec_value(p, [0, 0]), (2,)), lambda o: H.Point(o, model="klein").proj_data),
     "transformation_ctor": (_matrix_pack, lambda p, v: build(p, PERM, (3, 3)), lambda o: P.Transformation(o, column_vectors=True).proj_data),
 }
-FLOATING = {"rotation_matrix", "standard_rotation", "elliptic", "sl2_iso", "from_angle", "regular_polygon", "coxeter_rep",
+FLOATING = {"standard_loxodromic", "point_along", "regular_polygon_angle", "rotation_matrix", "standard_rotation", "elliptic", "sl2_iso", "from_angle", "regular_polygon", "coxeter_rep",
             "array_like", "zeros_float", "identity_float", "point_hyperboloid", "point_affine_hyperboloid", "transformation_inv"}
 
 
@@ -385,7 +389,7 @@ def _iso_post(M):
 
 def _post(entry, out, obj):
     """the library's own inverse / eigenvalue / trigonometric routines on the produced data"""
-    if entry in ("standard_rotation", "elliptic", "sl2_iso"):
+    if entry in ("standard_rotation", "elliptic", "sl2_iso", "standard_loxodromic"):
         return _iso_post(out)
     if entry == "rotation_matrix":
         return {"inv_ok": close(np.asarray(utils.invert(out), float) @ np.asarray(out, float), np.eye(2), 1e-5),
@@ -441,9 +445,11 @@ def gen_packaging(rng, n):
         e = names[i % len(names)]
         integral = rng.random() < 0.6
         if integral:
-            v = rng.choice([1, 2, 3, -1, -2, 5]) if e != "regular_polygon" else rng.choice([1, 2])
+            v = rng.choice([1, 2, 3, -1, -2, 5]) if e not in ("regular_polygon", "regular_polygon_angle") else rng.choice([1, 2])
+            if e == "regular_polygon_angle":
+                v = 1                      # an interior angle of a regular pentagon (< 3 pi / 5)
         else:
-            v = rng.choice([0.5, 0.75, 1.25, 2.5, -0.375, 0.625]) if e != "regular_polygon" else rng.choice([0.5, 0.75, 1.25])
+            v = rng.choice([0.5, 0.75, 1.25, 2.5, -0.375, 0.625]) if e not in ("regular_polygon", "regular_polygon_angle") else rng.choice([0.5, 0.75, 1.25])
         yield {"entry": e, "v": v, "integral": integral}
 
 
@@ -479,7 +485,7 @@ def run_packaging(inp):
             rec["dtype"] = str(out.dtype)
             a = np.asarray(out)
             if p["k"] in ("arr", "list") and e in ("rotation_matrix", "standard_rotation", "from_angle", "array_like",
-                                                     "zeros_float", "identity_float", "zeros", "identity", "regular_polygon"):
+                                                     "zeros_float", "identity_float", "zeros", "identity", "regular_polygon", "regular_polygon_angle", "standard_loxodromic", "point_along"):
                 # array-valued parameter: keep one unit so every packaging is compared on the same value
                 if e in ("from_angle", "array_like"):
                     a = a.reshape((-1,) + a.shape[a.ndim - (1 if e == "from_angle" else 0):])[0] if a.ndim > (1 if e == "from_angle" else 0) else a
@@ -807,10 +813,24 @@ def gen_rescale_oracle(rng, n):
         nv = rng.choice([3, 4, 5, 6])
         ang = rng.uniform(-3, 3)
         Y = fball_h(rng, k, dim)
-        y_ideal = rng.random() < 0.3
+        X0 = fball_h(rng, k, dim)
+        grid = rng.random() < 0.25
+        if grid:
+            # natural measure-zero loci: the origin, points on the axes, horizontal / vertical / symmetric pairs
+            def g():
+                while True:
+                    v_ = [rng.choice([0.0, 0.0, 0.25, -0.25, 0.5, -0.5]) for _ in range(dim)]
+                    if sum(t * t for t in v_) <= 0.8:
+                        return [1.0] + v_
+            X0 = [g() for _ in range(k)]
+            Y = [g() for _ in range(k)]
+            for a_, b_ in zip(X0, Y):
+                while a_ == b_:
+                    b_[1 + rng.randrange(dim)] = rng.choice([0.125, -0.375])
+        y_ideal = (not grid) and rng.random() < 0.3
         if y_ideal:      # ideal points (eigenvectors of loxodromic isometries are handed out like this, with any sign)
             Y = [[1.0] + [c / math.sqrt(sum(t * t for t in y[1:])) for c in y[1:]] for y in Y]
-        yield {"dim": dim, "k": k, "X": fball_h(rng, k, dim), "Y": Y, "y_ideal": y_ideal, "Z": fball_h(rng, k, dim),
+        yield {"dim": dim, "k": k, "X": X0, "Y": Y, "y_ideal": y_ideal, "grid": grid, "Z": fball_h(rng, k, dim),
                "poly": [_with_ideal_vertex(rng, fball_h(rng, nv, dim)) for _ in range(k)],
                "lx": flam(rng, k), "ly": flam(rng, k), "lz": flam(rng, k), "lp": [flam(rng, nv) for _ in range(k)],
                "d": rng.uniform(0.05, 2.0), "angle": ang, "boost": rng.uniform(0.3, 3.0), "tc": flam(rng, 1)[0],
@@ -899,6 +919,28 @@ def run_rescale_oracle(inp):
         hs_ok = np.abs(a["circle_halfspace_radius"]) < 20.0
     for k in a:
         u, v = a[k], b[k]
+        for pre, rk in (("circle_poincare", "circle_poincare_radius"), ("polygon_circle", "polygon_circle_radius")):
+            if k.startswith(pre) and rk in a:
+                # geodesics through the origin are diameters: no finite circle (radius nan/inf/huge) on either side
+                ra, rb = a[rk], b[rk]
+                big = lambda x: ~np.isfinite(x) | (np.abs(x) > 1e3)
+                if np.any(big(ra) != big(rb)):
+                    worst.append([k, float("inf")])
+                    u = v = None
+                    break
+                m = ~big(ra)
+                if u.shape[:m.ndim] == m.shape and m.ndim:
+                    u, v = u[m], v[m]
+                    if k.endswith("centre"):
+                        # compare centres relative to their radius here (the generic branch below would use unmasked radii)
+                        e_ = float(np.max(np.abs(u - v) / (1 + np.abs(ra[m]))[..., None])) if u.size else 0.0
+                        worst.append([k, e_])
+                        u = v = None
+                elif m.ndim == 0 and not m:
+                    u = v = None
+                break
+        if u is None or u.size == 0:
+            continue
         if hs_ok is not None and k.startswith("circle_halfspace") and u.shape[:hs_ok.ndim] == hs_ok.shape:
             if hs_ok.ndim == 0:
                 if not hs_ok:
@@ -947,6 +989,249 @@ def judge_rescale_oracle(inp, obs, lr):
     return None
 
 
+# ------------------------------------------------------------------------------------------------
+# S3d: the locus a = <x1 - x2, x1 - x2> = 0 of Segment._compute_aux_data (known finding C12-segment-a-zero)
+# ------------------------------------------------------------------------------------------------
+def gen_a_zero(rng, n):
+    """pairs of points whose STORED representatives have a lightlike (or nearly lightlike) difference, and controls"""
+    for i in range(n):
+        dim = rng.choice([2, 2, 3, 4])
+        x1 = fball_h(rng, 1, dim)[0]
+        ideal = rng.random() < 0.3
+        x2 = fball_h(rng, 1, dim)[0]
+        if ideal:
+            nrm = math.sqrt(sum(t * t for t in x2[1:]))
+            x2 = [1.0] + [t / nrm for t in x2[1:]]
+        eps = rng.choice([0.0, 0.0, 1e-16, 1e-14, 1e-12, 1e-10, 1e-8, 1e-4, 1e-2, 0.3])
+        yield {"dim": dim, "x1": x1, "x2": x2, "ideal": ideal, "root": rng.choice([-1, 1]), "eps": eps * rng.choice([-1, 1]),
+               "scale": flam(rng, 1)[0], "integers": False}
+    # the integer example of the finding
+    yield {"dim": 2, "x1": [2.0, 1.0, 0.0], "x2": [3.0, 1.0, 1.0], "ideal": False, "root": 0, "eps": 0.0, "scale": 1.0, "integers": True}
+
+
+def _mk(x, y):
+    return -x[0] * y[0] + float(np.dot(x[1:], y[1:]))
+
+
+def _a_zero_reps(inp):
+    x1, x2 = np.array(inp["x1"]), np.array(inp["x2"])
+    if inp["integers"]:
+        return x1, x2
+    m11, m12, m22 = _mk(x1, x1), _mk(x1, x2), _mk(x2, x2)
+    # t with <x1 - t x2, x1 - t x2> = 0
+    if inp["ideal"]:
+        t = m11 / (2 * m12)
+    else:
+        t = (m12 + inp["root"] * math.sqrt(max(m12 * m12 - m11 * m22, 0.0))) / m22
+    t *= (1 + inp["eps"])
+    return x1 * inp["scale"], x2 * (t * inp["scale"])
+
+
+def _a_rel(y1, y2):
+    m11, m12, m22 = _mk(y1, y1), _mk(y1, y2), _mk(y2, y2)
+    return abs(m11 - 2 * m12 + m22) / (abs(m11) + 2 * abs(m12) + abs(m22))
+
+
+def run_a_zero(inp):
+    y1, y2 = _a_zero_reps(inp)
+    # reference: the same two points with generic representatives
+    ref = H.Segment(H.Point(np.array(inp["x1"]) * 1.37), H.Point(np.array(inp["x2"]) * (-0.61 if not inp["integers"] else 2.0)))
+    r = np.asarray(ref.ideal_endpoint_coords("klein"), float)
+    out = {"a_rel": _a_rel(y1, y2), "ref": r.tolist()}
+    try:
+        seg = H.Segment(H.Point(y1), H.Point(y2))
+        g = np.asarray(seg.ideal_endpoint_coords("klein"), float)
+        out["got"] = g.tolist()
+        out["err"] = _unordered_err(g, r) if finite(g) else float("inf")
+    except Exception as ex:  # noqa: BLE001
+        out["got"] = "%s: %s" % (type(ex).__name__, str(ex)[:100])
+        out["err"] = float("inf")
+    return out
+
+
+def judge_a_zero(inp, obs, lr):
+    if "exc" in obs:
+        return {"expected": "ideal endpoints", "observed": obs, "tags": {"exc": obs["exc"]}}
+    if not (obs["err"] <= 1e-6):
+        on_locus = bool(obs["a_rel"] < 1e-6)
+        return {"expected": {"ideal endpoints (Klein, unordered) of the same segment with generic representatives": obs["ref"]},
+                "observed": {"ideal endpoints": obs["got"], "a/(|m11|+2|m12|+|m22|)": obs["a_rel"]},
+                "call_site": "Segment._compute_aux_data",
+                "tags": {"call_site": "Segment._compute_aux_data", "segment_a_zero": on_locus}}
+    return None
+
+
+# ------------------------------------------------------------------------------------------------
+# S2e: values (packaging_value_independent): array_like of the same number, every packaging, explicit dtypes
+# ------------------------------------------------------------------------------------------------
+VALS = [1, 2, -3, 0.5, -0.375, 2.75, -7.5]
+
+
+def gen_values(rng, n):
+    for p in all_packs():
+        if not is_real(p):
+            continue
+        for v in VALS:
+            if is_int(p) and not float(v).is_integer():
+                continue
+            for dt in (None, "int64", "float32", "float64"):
+                for it in (True, False):
+                    yield {"case": "value", "array": p, "v": v, "dtype": dt, "integer_type": it}
+
+
+def run_values(inp):
+    a = utils.array_like(build(inp["array"], inp["v"]), dtype=None if inp["dtype"] is None else np.dtype(inp["dtype"]),
+                         integer_type=inp["integer_type"])
+    vals = np.unique(np.asarray(a).reshape(-1))
+    return {"res": [str(a.dtype), [float(x) for x in vals]]}
+
+
+def lean_values(inp, obs):
+    return [{"op": "c12.array_like_val", "major": MAJOR, "array": inp["array"], "v": Q.qs(F(inp["v"]).limit_denominator(1000)),
+             "dtype": inp["dtype"], "integer_type": inp["integer_type"]}]
+
+
+def judge_values(inp, obs, lr):
+    if "exc" in obs:
+        return {"expected": "array_like runs", "observed": obs, "tags": {"what": "value", "exc": obs["exc"]}, "property_failure": True}
+    r = lr[0]
+    if "err" in r:
+        return {"expected": "model answer", "observed": r, "tags": {"driver_err": r["err"], "what": "value"}}
+    md, mv = r["ok"][0], float(F(r["ok"][1]))
+    if obs["res"][0] != md or obs["res"][1] != [mv]:
+        return {"expected": {"model": [md, mv]}, "observed": obs["res"], "tags": {"what": "value", "pack": inp["array"]["k"], "dtype": inp["dtype"]}}
+    return None
+
+
+# ------------------------------------------------------------------------------------------------
+# S3e: packaging histories — the same number through different packagings, in random order, in ONE process,
+#      every constructor with a real parameter, each result against an independent closed form
+# ------------------------------------------------------------------------------------------------
+def scalar_packagings(v, integral):
+    """(label, object, tolerance class) for every way of handing the scalar v over; integer types only for integral v"""
+    out = [("py_float", float(v), 64), ("np.float64", np.float64(v), 64), ("0d_float64", np.array(float(v)), 64),
+           ("np.float32", np.float32(v), 32), ("0d_float32", np.array(v, dtype=np.float32), 32), ("np.longdouble", np.longdouble(v), 64)]
+    if integral:
+        # (narrower integers are left out: NumPy's own ufuncs compute cos(np.int16(2)) in float32 and cos(np.int8(2)) in float16)
+        out += [("py_int", int(v), 64), ("np.int64", np.int64(v), 64), ("np.int32", np.int32(v), 64), ("0d_int64", np.array(int(v)), 64),
+                ("0d_int32", np.array(int(v), dtype=np.int32), 64)]
+    return out
+
+
+def array_packagings(v, integral):
+    """array-valued packagings (for the vectorised entry points): the unit at index 0 is compared"""
+    out = [("list_float", [float(v), float(v)], 64), ("1d_float64", np.array([float(v), float(v)]), 64),
+           ("1d_float32", np.array([v, v], dtype=np.float32), 32)]
+    if integral:
+        out += [("list_int", [int(v), int(v)], 64), ("1d_int64", np.array([int(v), int(v)]), 64)]
+    return out
+
+
+def _first(a):
+    a = np.asarray(a, dtype=float)
+    return a
+
+
+def _poly_invariants(proj, first_unit):
+    """(Klein radius of every vertex, consecutive dot products) of one polygon"""
+    pd = np.asarray(proj, float)
+    if first_unit:
+        pd = pd.reshape((-1,) + pd.shape[-2:])[0]
+    k = pd[:, 1:] / pd[:, :1]
+    return np.concatenate([np.linalg.norm(k, axis=1), (k * np.roll(k, -1, axis=0)).sum(1)])
+
+
+def _lox(p, dim=2):
+    m = np.eye(dim + 1)
+    m[0, 0] = m[1, 1] = (p + 1 / p) / 2
+    m[0, 1] = m[1, 0] = (p - 1 / p) / 2
+    return m
+
+
+# name -> (value kind, vectorised?, call(obj) -> comparable float array (unit 0 for array packagings), closed form(v) -> same)
+HISTORY_ENTRIES = {
+    "rotation_matrix": ("angle", False, lambda o: np.asarray(utils.rotation_matrix(o), float),
+                        lambda v: np.array([[math.cos(v), -math.sin(v)], [math.sin(v), math.cos(v)]])),
+    "standard_rotation": ("angle", False, lambda o: np.asarray(H.Isometry.standard_rotation(o).proj_data, float),
+                          lambda v: np.array([[1, 0, 0], [0, math.cos(v), math.sin(v)], [0, -math.sin(v), math.cos(v)]])),
+    "standard_loxodromic": ("positive", False, lambda o: np.asarray(H.Isometry.standard_loxodromic(2, o).proj_data, float), lambda v: _lox(v)),
+    "standard_loxodromic_3": ("positive", False, lambda o: np.asarray(H.Isometry.standard_loxodromic(3, o).proj_data, float), lambda v: _lox(v, 3)),
+    "from_angle": ("angle", "all", lambda o: np.asarray(H.IdealPoint.from_angle(o).proj_data, float).reshape(-1, 3)[0],
+                   lambda v: np.array([1.0, math.cos(v), math.sin(v)])),
+    "regular_polygon_radius=": ("positive", False, lambda o: _poly_invariants(H.Polygon.regular_polygon(5, radius=o).proj_data, np.ndim(o) > 0),
+                                lambda v: np.concatenate([np.full(5, math.tanh(v)), np.full(5, math.tanh(v) ** 2 * math.cos(2 * math.pi / 5))])),
+    "regular_polygon_angle=": ("small", False, lambda o: _poly_invariants(H.Polygon.regular_polygon(5, angle=o).proj_data, np.ndim(o) > 0),
+                               lambda v: (lambda t: np.concatenate([np.full(5, t), np.full(5, t * t * math.cos(2 * math.pi / 5))]))(
+                                   math.tanh(math.acosh(1 / (math.tan(math.pi / 5) * math.tan(v / 2)))))),
+    "regular_polygon_radius()": ("small", "arrays", lambda o: np.asarray(H.regular_polygon_radius(5, o), float).reshape(-1)[:1],
+                                 lambda v: np.array([math.acosh(1 / (math.tan(math.pi / 5) * math.tan(v / 2)))])),
+    "polygon_interior_angle()": ("positive", "arrays", lambda o: np.asarray(H.polygon_interior_angle(5, o), float).reshape(-1)[:1],
+                                 lambda v: np.array([2 * math.atan(1 / (math.tan(math.pi / 5) * math.cosh(v)))])),
+    "point_along": ("positive", False,
+                    lambda o: np.asarray(H.TangentVector.get_base_tangent(2).normalized().point_along(o).coords("klein"), float).reshape(-1, 2)[0],
+                    lambda v: np.array([math.tanh(v), 0.0])),
+    "hyp_to_affine_dist": ("positive", "all", lambda o: np.asarray(H.hyp_to_affine_dist(o), float).reshape(-1)[:1], lambda v: np.array([math.tanh(v)])),
+    "triangle_group": ("label", False, lambda o: np.asarray(coxeter.TriangleGroup((o, 3, 7)).bilinear_form(), float),
+                       lambda v: -np.cos(np.pi / np.array([[1.0, v, 7], [v, 1, 3], [7, 3, 1]]))),
+    "horosphere_radius": ("angle", False,
+                          lambda o: np.asarray(H.Horosphere(H.IdealPoint.from_angle(o), H.Point(np.array([0.0, 0.0]), model="klein")).sphere_parameters()[1], float).reshape(-1)[:1],
+                          lambda v: np.array([0.5])),
+}
+
+
+def gen_history(rng, n):
+    names = list(HISTORY_ENTRIES)
+    for i in range(n):
+        e = names[i % len(names)]
+        kind = HISTORY_ENTRIES[e][0]
+        integral = rng.random() < 0.5
+        if kind == "label":
+            v, integral = rng.choice([2, 3, 4, 5, 6]), True
+        elif kind == "small":       # interior angle of a regular pentagon: below 3 pi / 5
+            v = rng.choice([1]) if integral else rng.choice([0.5, 0.75, 1.25, 1.5, 0.375])
+        elif kind == "positive":
+            v = rng.choice([1, 2, 3]) if integral else rng.choice([0.5, 0.75, 1.25, 2.5, 0.375])
+        else:
+            v = rng.choice([1, 2, 3, -1, -2]) if integral else rng.choice([0.5, -0.75, 1.25, 2.5, -0.375])
+        labels = [l for l, _, _ in scalar_packagings(v, integral)]
+        if HISTORY_ENTRIES[e][1]:
+            # "arrays": helpers written with plain arithmetic accept ndarrays, not Python lists
+            labels += [l for l, _, _ in array_packagings(v, integral) if HISTORY_ENTRIES[e][1] == "all" or not l.startswith("list")]
+        order = [rng.choice(labels) for _ in range(rng.choice([5, 7, 9]))]
+        yield {"entry": e, "v": v, "integral": integral, "order": order}
+
+
+def run_history(inp):
+    kind, vec, call, ref = HISTORY_ENTRIES[inp["entry"]]
+    packs = {l: (o, c) for l, o, c in scalar_packagings(inp["v"], inp["integral"]) + array_packagings(inp["v"], inp["integral"])}
+    expect = np.asarray(ref(float(inp["v"])), float)
+    steps = []
+    for lab in inp["order"]:
+        obj, cls = packs[lab]
+        try:
+            got = np.asarray(call(obj), float)
+            e_ = err(got, expect) if got.shape == expect.shape else float("inf")
+            loose = 1e3 if inp["entry"] == "horosphere_radius" else 1.0      # ideal points lose half their digits in kleinian_to_poincare
+            steps.append({"pack": lab, "err": e_, "tol": (1e-5 if cls == 32 else 1e-10) * loose})
+        except Exception as ex:  # noqa: BLE001
+            steps.append({"pack": lab, "exc": "%s: %s" % (type(ex).__name__, str(ex)[:120])})
+    return {"steps": steps}
+
+
+def judge_history(inp, obs, lr):
+    if "exc" in obs:
+        return {"expected": "calls run", "observed": obs, "tags": {"entry": inp["entry"], "exc": obs["exc"]}}
+    for i, st in enumerate(obs["steps"]):
+        if "exc" in st:
+            return {"expected": "%s accepts the packaging %s of %r (call %d of the history %s)" % (inp["entry"], st["pack"], inp["v"], i, inp["order"]),
+                    "observed": st["exc"], "tags": {"entry": inp["entry"], "pack": st["pack"], "raises": True}}
+        if not (st["err"] <= st["tol"]):
+            return {"expected": "closed-form value of %s(%r) within %g" % (inp["entry"], inp["v"], st["tol"]),
+                    "observed": {"packaging": st["pack"], "error": st["err"], "position in history": i, "history": inp["order"]},
+                    "tags": {"entry": inp["entry"], "pack": st["pack"], "raises": False}}
+    return None
+
+
 CLAUSES = [
     Clause("numpy_tables_corr", "corr", gen_numpy, run_numpy, judge_numpy, lean=lean_numpy, site="numpy.can_cast / asarray / result_type",
            budget={"quick": 1, "thorough": 1},
@@ -960,14 +1245,23 @@ CLAUSES = [
     Clause("entry_dtype_corr", "corr", gen_entries, run_entries, judge_entries, lean=lean_entries, site="listed entry points",
            budget={"quick": 1, "thorough": 1},
            what="dtype produced by every listed entry point for every applicable real packaging vs entryDtype (the table real_input_floating quantifies over)"),
+    Clause("array_like_value_corr", "corr", gen_values, run_values, judge_values, lean=lean_values, site="utils.array_like",
+           budget={"quick": 1, "thorough": 1},
+           what="dtype AND stored value of array_like for every real packaging of the same number (7 values, explicit dtype None/int64/float32/float64, both integer_type) vs arrayLikeVal (truncation towards zero for int64)"),
     Clause("rescale_corr", "corr", gen_rescale, run_rescale, judge_rescale, lean=lean_rescale, site="hyperbolic rescaling formulas",
            budget={"quick": 60, "thorough": 1500},
            what="affine coords, normalize, cosh d, unit_tangent_towards, point_along, segment ideal endpoints (unordered), Poincare circle, apply: implementation on X and on lambda.X vs the model executed over Q"),
     Clause("packaging_oracle", "oracle", gen_packaging, run_packaging, judge_packaging, site="listed entry points",
            budget={"quick": 72, "thorough": 900},
            what="every entry point x every packaging of the same value: floating dtype, allclose to the reference packaging, inverse / eigenvalues / trigonometry / distance / origin_to succeed"),
+    Clause("packaging_history_oracle", "oracle", gen_history, run_history, judge_history, site="constructors with a real parameter",
+           budget={"quick": 130, "thorough": 2600},
+           what="histories: the same number through 5-9 packagings in random order within one process (Python / NumPy float and integer scalars of several widths, 0-d arrays, lists and 1-d arrays for the vectorised entry points) for rotation_matrix, standard_rotation, standard_loxodromic, from_angle, regular_polygon(radius=/angle=), regular_polygon_radius, polygon_interior_angle, point_along, hyp_to_affine_dist, TriangleGroup labels, Horosphere; every result against an independent closed form (1e-10; 1e-5 for float32 packagings)"),
     Clause("examples_oracle", "oracle", gen_examples, run_examples, judge_examples, site="README / docstring examples",
            budget={"quick": 1, "thorough": 1}, what="every ```python block of frontpage_doc.md and of the module docstrings runs (Agg backend)"),
+    Clause("segment_a_zero_oracle", "oracle", gen_a_zero, run_a_zero, judge_a_zero, site="Segment._compute_aux_data",
+           budget={"quick": 40, "thorough": 600},
+           what="the locus where the difference of the two STORED representatives is lightlike (a = 0 in the quadratic) and its neighbourhood (relative |a| from 0 to 0.3), interior and ideal second endpoints, plus the integer example Point([2,1,0]), Point([3,1,1]): ideal endpoints vs the same segment with generic representatives; failures with relative |a| < 1e-6 carry the tag segment_a_zero (known finding), any other failure is a violation"),
     Clause("rescale_oracle", "oracle", gen_rescale_oracle, run_rescale_oracle, judge_rescale_oracle, site="hyperbolic geometric outputs",
            budget={"quick": 120, "thorough": 3000},
            what="X vs lambda.X (independent per-unit lambda in +-[0.1,10], composite shapes, dims 2-4): coords in every model, distances, segments' ideal endpoints and circle parameters, tangent directions, point_along, origin_to, isometries as projective maps (dim 2), polygons, images under transformations"),
